@@ -10,6 +10,9 @@ more_rewrites.py <dir> <mode>); every check must stay silent on the result.
   flip     a == b -> b == a, a < b -> b > a ...   (both operands names / attribute chains / constants)
   chain    a < b < c  ->  a < b and b < c           (operands names / attribute chains / constants)
   kwargs   f(a, b) -> f(p=a, q=b) for calls of a function defined once at module level of the same file
+  alias    import a.b.c  +  a.b.c.x   ->   import a.b.c as _mN  +  _mN.x   (function bodies only; module attribute look-ups
+           reach the same module object)
+  aug      i += <number>  ->  i = i + <number>
   tidy     trailing `pass` / bare trailing `return` of a function body removed
   withtmp  with <call> as f: ...           ->  _wN = <call>; with _wN as f: ...   (only `open(...)`-free contexts are safe
            to delay? no: the call is still evaluated immediately before the with statement, nothing runs in between)
@@ -139,6 +142,46 @@ class Expr(ast.NodeTransformer):
         return n
 
 
+class Alias(ast.NodeTransformer):
+    """inside function bodies, a.b.c.<attr> where `import a.b.c` is a module-level import of this file"""
+
+    def __init__(self, mods):
+        self.mods = mods  # dotted -> alias
+        self.used = set()
+        self.depth = 0
+
+    def visit_FunctionDef(self, n):
+        self.depth += 1
+        # decorators / defaults / annotations are evaluated at import time: leave them alone
+        n.body = [self.visit(x) for x in n.body]
+        self.depth -= 1
+        return n
+
+    visit_AsyncFunctionDef = visit_FunctionDef
+
+    def visit_Attribute(self, n):
+        if self.depth and isinstance(n.ctx, ast.Load):
+            parts = []
+            e = n
+            while isinstance(e, ast.Attribute):
+                parts.append(e.attr)
+                e = e.value
+            if isinstance(e, ast.Name):
+                parts.append(e.id)
+                parts.reverse()
+                for k_ in range(len(parts) - 1, 1, -1):
+                    dotted = '.'.join(parts[:k_])
+                    if dotted in self.mods:
+                        self.used.add(dotted)
+                        cnt[0] += 1
+                        new = ast.Name(id=self.mods[dotted], ctx=ast.Load())
+                        for a in parts[k_:]:
+                            new = ast.Attribute(value=new, attr=a, ctx=ast.Load())
+                        return new
+        self.generic_visit(n)
+        return n
+
+
 def tidy(fn):
     while len(fn.body) > 1 and (isinstance(fn.body[-1], ast.Pass) or (isinstance(fn.body[-1], ast.Return) and fn.body[-1].value is None)):
         fn.body.pop()
@@ -157,6 +200,29 @@ for dp, _dn, fns in os.walk(root):
                 stores = {x.id for x in ast.walk(t) if isinstance(x, ast.Name) and isinstance(x.ctx, ast.Store)}
                 defs = {x.name: x for x in tops if names.count(x.name) == 1 and x.name not in stores and not x.decorator_list}
                 t = Expr(defs).visit(t)
+            elif mode == 'alias':
+                mods = {}
+                for x in t.body:
+                    if isinstance(x, ast.Import):
+                        for a in x.names:
+                            if a.asname is None and a.name.startswith('dawgie.') and a.name.count('.') >= 2:
+                                mods[a.name] = '_m_' + a.name.replace('.', '_')
+                stores = {x.id for x in ast.walk(t) if isinstance(x, ast.Name) and isinstance(x.ctx, ast.Store)}
+                if mods and not (stores & {'dawgie'}):
+                    al = Alias(mods)
+                    t = al.visit(t)
+                    # bind the aliases lazily at first use would change behaviour; bind them at the end of the module
+                    # body instead (every function runs after the module has been imported)
+                    for dotted in sorted(al.used):
+                        t.body.append(ast.Import(names=[ast.alias(name=dotted, asname=mods[dotted])]))
+            elif mode == 'aug':
+                class Aug(ast.NodeTransformer):
+                    def visit_AugAssign(self, n):
+                        if isinstance(n.target, ast.Name) and isinstance(n.op, (ast.Add, ast.Sub)) and isinstance(n.value, ast.Constant) and isinstance(n.value.value, (int, float)) and not isinstance(n.value.value, bool):
+                            cnt[0] += 1
+                            return ast.Assign(targets=[ast.Name(id=n.target.id, ctx=ast.Store())], value=ast.BinOp(left=ast.Name(id=n.target.id, ctx=ast.Load()), op=n.op, right=n.value))
+                        return n
+                t = Aug().visit(t)
             elif mode == 'tidy':
                 for n in ast.walk(t):
                     if isinstance(n, (ast.FunctionDef, ast.AsyncFunctionDef)):
